@@ -443,7 +443,12 @@ func (n *node) AddChildren(ch ...Node) {
 
 func (n *node) AddWhenChildren(fromAugment bool, ch ...Node) {
 	for _, child := range ch {
-		child.(*node).fromAugment = fromAugment
+		// Where a when was written does not change when it is handed on:
+		// one that comes from an augment stays so when a uses inside that
+		// augment passes it to the nodes of its grouping.
+		if fromAugment {
+			child.(*node).fromAugment = true
+		}
 	}
 	n.children = append(n.children, ch...)
 }
